@@ -24,6 +24,8 @@ type genStats struct {
 	Gate     int
 	GateHits int
 	Sibling  int
+	Diag     int
+	Long     int
 	SibHits  int
 	Rejected int // candidate polygons the implementation's Validate refused (not used)
 	EmptyMem int
@@ -394,4 +396,170 @@ func genSiblingBay(r *lib.Rng, ct geom.CoordinatesType, c coordSrc, st *genStats
 		mp.Kids = append(mp.Kids, genPolyNode(r, ct, c, ox+60, oy, st))
 	}
 	return mp, float64(dn)
+}
+
+// seqBoxAndLongest: larger side of the bounding box of a vertex list and its longest segment.
+func seqBoxAndLongest(vs [][4]float64) (side, longest float64) {
+	if len(vs) == 0 {
+		return 0, 0
+	}
+	minx, maxx, miny, maxy := vs[0][0], vs[0][0], vs[0][1], vs[0][1]
+	for i, v := range vs {
+		minx, maxx = math.Min(minx, v[0]), math.Max(maxx, v[0])
+		miny, maxy = math.Min(miny, v[1]), math.Max(maxy, v[1])
+		if i > 0 {
+			longest = math.Max(longest, math.Hypot(v[0]-vs[i-1][0], v[1]-vs[i-1][1]))
+		}
+	}
+	return math.Max(maxx-minx, maxy-miny), longest
+}
+
+// genDiagGeom: small geometries whose longest segment is diagonal, so that it is longer than both
+// sides of its sequence's bounding box: 2-point lines, short lines, triangles, parallelograms, as
+// LineString / Polygon / Multi* / collection. Returns an interval (lo, hi] of distances that lie
+// above every box side of the chosen sequence but not above its longest segment: Densify must
+// still subdivide that segment.
+func genDiagGeom(r *lib.Rng, st *genStats) (*lib.Node, float64, float64) {
+	for {
+		ct := geom.CoordinatesType(r.Intn(4))
+		c := newSrc(r, st)
+		ox, oy := r.Range(-8, 8), r.Range(-8, 8)
+		a, b := r.Range(1, 7), r.Range(1, 7)
+		if r.Bool() {
+			a = -a
+		}
+		if r.Bool() {
+			b = -b
+		}
+		var pts [][2]int
+		ring := false
+		switch r.Intn(5) {
+		case 0: // two points
+			pts = [][2]int{{0, 0}, {a, b}}
+		case 1: // a diagonal with a short axis-parallel tail inside its box
+			pts = [][2]int{{0, 0}, {a, b}, {a, 0}}
+		case 2: // right triangle: the hypotenuse is the longest side (3-4-5 when a, b = 3, 4)
+			pts, ring = [][2]int{{0, 0}, {a, 0}, {0, b}}, true
+		case 3: // the same triangle as an open line
+			pts = [][2]int{{a, 0}, {0, b}, {0, 0}}
+		default: // a thin parallelogram along the diagonal
+			pts, ring = [][2]int{{0, 0}, {a, b}, {a, b + sgn(b)}, {0, sgn(b)}}, true
+		}
+		var line *lib.Node
+		if ring {
+			line = ringFrom(r, ct, c, pts, ox, oy, st)
+		} else {
+			line = &lib.Node{Kind: lib.KLine, CT: ct}
+			var vs [][4]float64
+			for _, p := range pts {
+				vs = append(vs, vtx(c, ct, ox+p[0], oy+p[1]))
+			}
+			line.C = clearUnused(addDups(r, vs, st), ct)
+		}
+		side, longest := seqBoxAndLongest(line.C)
+		if !(longest > side*1.0001) {
+			continue
+		}
+		var n *lib.Node
+		if ring {
+			poly := &lib.Node{Kind: lib.KPoly, CT: ct, Kids: []*lib.Node{line}}
+			switch r.Intn(3) {
+			case 0:
+				n = poly
+			case 1:
+				n = &lib.Node{Kind: lib.KMPoly, CT: ct, Kids: []*lib.Node{poly}}
+			default:
+				n = &lib.Node{Kind: lib.KColl, CT: ct, Kids: []*lib.Node{poly}}
+			}
+		} else {
+			switch r.Intn(3) {
+			case 0:
+				n = line
+			case 1:
+				n = &lib.Node{Kind: lib.KMLine, CT: ct, Kids: []*lib.Node{line}}
+			default:
+				n = &lib.Node{Kind: lib.KColl, CT: ct, Kids: []*lib.Node{line}}
+			}
+		}
+		if n.Build().Validate() != nil {
+			st.Rejected++
+			continue
+		}
+		st.Kinds[kindNames[n.Kind]]++
+		st.CTs[ct]++
+		st.Diag++
+		return n, side, longest
+	}
+}
+
+func sgn(x int) int {
+	if x < 0 {
+		return -1
+	}
+	return 1
+}
+
+// genLongSeq: densely digitised sequences of 64..maxLong vertices on a 1/16 grid (small dyadic
+// ordinates keep the exact model fast), with a threshold t chosen so that the interesting
+// features lie between t and 2t:
+//   - bumps: a line along y = 0 at spacing 1/2 with three-vertex bumps of heights (<t, in (t,2t), <t);
+//   - noise: a straight line with vertical noise below t and occasional spikes up to 2t;
+//   - stairs: a long staircase ring (a valid polygon), step 1, thresholds around the step size.
+func genLongSeq(r *lib.Rng, maxLong int, st *genStats) (*lib.Node, float64, string) {
+	ct := geom.CoordinatesType(r.Intn(4))
+	q := func(k int) float64 { return float64(k) / 16 }
+	zm := func() (float64, float64) { return float64(r.Range(-9, 9)), float64(r.Range(-9, 9)) }
+	mk := func(x, y float64) [4]float64 {
+		z, m := zm()
+		return [4]float64{x, y, z, m}
+	}
+	nv := r.Range(64, maxLong)
+	t := []float64{1, 0.5, 0.75, 1.25}[r.Intn(4)]
+	t16 := int(t * 16)
+	ox, oy := float64(r.Range(-20, 20)), float64(r.Range(-20, 20))
+	st.Long++
+	st.Kinds["LineString"]++
+	st.CTs[ct]++
+	switch r.Intn(3) {
+	case 0:
+		var vs [][4]float64
+		for i := 0; i < nv; i++ {
+			vs = append(vs, mk(ox+float64(i)/2, oy))
+		}
+		for b, nb := 0, r.Range(1, 3); b < nb; b++ {
+			at := r.Range(3, nv-5)
+			low := q(r.Range(t16/2, t16-1))
+			high := q(r.Range(t16+2, 2*t16-2))
+			sg := float64(sgn(r.Range(-1, 0)*2 + 1))
+			vs[at][1], vs[at+1][1], vs[at+2][1] = oy+sg*low, oy+sg*high, oy+sg*low
+		}
+		n := &lib.Node{Kind: lib.KLine, CT: ct, C: clearUnused(vs, ct)}
+		if r.Chance(1, 3) {
+			n = &lib.Node{Kind: lib.KMLine, CT: ct, Kids: []*lib.Node{n}}
+		}
+		return n, t, "long_bumps"
+	case 1:
+		var vs [][4]float64
+		for i := 0; i < nv; i++ {
+			y := q(r.Range(-(t16 - 2), t16-2))
+			if r.Chance(1, 25) {
+				y = q(r.Range(t16+1, 2*t16-1)) * float64(sgn(r.Range(-1, 0)*2+1))
+			}
+			vs = append(vs, mk(ox+float64(i)/2, oy+y))
+		}
+		return &lib.Node{Kind: lib.KLine, CT: ct, C: clearUnused(vs, ct)}, t, "long_noise"
+	default:
+		k := (nv - 2) / 2
+		var vs [][4]float64
+		for i := 0; i < k; i++ {
+			vs = append(vs, mk(ox+float64(i), oy+float64(i)), mk(ox+float64(i+1), oy+float64(i)))
+		}
+		vs = append(vs, mk(ox+float64(k), oy+float64(k)), mk(ox, oy+float64(k)))
+		rot := r.Intn(len(vs))
+		vs = append(vs[rot:], vs[:rot]...)
+		vs = append(vs, vs[0])
+		ring := &lib.Node{Kind: lib.KLine, CT: ct, C: clearUnused(vs, ct)}
+		tt := []float64{0.5, 0.6875, 0.75, 1, 1.5, 2.5}[r.Intn(6)]
+		return &lib.Node{Kind: lib.KPoly, CT: ct, Kids: []*lib.Node{ring}}, tt, "long_stairs"
+	}
 }
